@@ -8,6 +8,7 @@ import (
 	"golang.org/x/tools/go/ssa"
 
 	"verif/wscheck/internal/fold"
+	"verif/wscheck/internal/load"
 )
 
 func init() {
@@ -392,6 +393,29 @@ func c20Watcher(c *Ctx) {
 			doneFn = a
 		}
 	}
+	// the same protocol written with a state struct: "go w.watch(); return w.done"
+	boundDone := false
+	if doneFn == nil {
+		for _, b := range f.Blocks {
+			for _, in := range b.Instrs {
+				ret, ok := in.(*ssa.Return)
+				if !ok || len(ret.Results) != 1 {
+					continue
+				}
+				if mc, ok := ret.Results[0].(*ssa.MakeClosure); ok && len(mc.Bindings) == 1 {
+					if w, ok := mc.Fn.(*ssa.Function); ok && strings.HasSuffix(w.Name(), "$bound") {
+						if obj, ok := w.Object().(*types.Func); ok {
+							if target := c.P.Prog.FuncValue(obj); target != nil && load.InModule(target) && len(target.Params) == 2 {
+								if _, isPtr := target.Params[0].Type().Underlying().(*types.Pointer); isPtr {
+									doneFn, boundDone = target, true
+								}
+							}
+						}
+					}
+				}
+			}
+		}
+	}
 	if doneFn == nil {
 		c.R.Unknown(rule, rule+"/done", c.P.FuncPos(f), "done closure not found")
 		return
@@ -407,7 +431,11 @@ func c20Watcher(c *Ctx) {
 		}
 		return fold.Nil{}
 	}
-	m.Models["invoke:(net.Error).Timeout"] = func(cl *fold.Call) fold.Val { return fold.Bool(cl.M.Atom("is-timeout")) }
+	// the kind of I/O error is fixed up front (nil, not a timeout, timeout), so that a done()
+	// which never asks still meets every kind
+	m.Models["invoke:(net.Error).Timeout"] = func(cl *fold.Call) fold.Val {
+		return fold.Bool(len(cl.Args) > 0 && strings.Contains(fold.Show(cl.Args[0]), "io-timeout"))
+	}
 	var errObj *fold.Obj
 	var problems []string
 	m.Bind = func(mm *fold.Machine) []fold.Val {
@@ -424,10 +452,26 @@ func c20Watcher(c *Ctx) {
 	ps := m.Explore(doneFn, func(mm *fold.Machine) []fold.Val {
 		recvs = 0
 		var cur fold.Val = fold.Nil{}
-		if mm.Choose("io-error", 2) == 1 {
+		switch mm.Choose("io-error", 3) {
+		case 1:
 			cur = fold.Iface{V: fold.Sym{Name: "io-error", NonNil: true}}
+		case 2:
+			cur = fold.Iface{V: fold.Sym{Name: "io-timeout", NonNil: true}}
 		}
 		errObj = mm.NewObj("err", cur)
+		if boundDone {
+			rt := doneFn.Params[0].Type().Underlying().(*types.Pointer).Elem()
+			recv := fold.SymOfType("w", rt)
+			if st, ok := recv.(fold.Struct); ok {
+				for i, fv := range st.F {
+					if sy, ok := fv.(fold.Sym); ok {
+						sy.NonNil = true
+						st.F[i] = sy
+					}
+				}
+			}
+			return []fold.Val{fold.Ref{O: mm.NewObj("w", recv)}, fold.Ref{O: errObj}}
+		}
 		return []fold.Val{fold.Ref{O: errObj}}
 	}, func(mm *fold.Machine, p *fold.Path) {
 		closes := 0
@@ -440,11 +484,17 @@ func c20Watcher(c *Ctx) {
 			problems = append(problems, fmt.Sprintf("done() closes quit %d times and receives %d replies (1 and 1 make the goroutine finish before Dial returns)", closes, recvs))
 		}
 		got := c.errName(mm.Load(fold.Ref{O: errObj}))
-		io := p.Chose("io-error") == 1
-		timeout := io && p.Chose("assert(io-error,net.Error)") == 1 && p.Chose("is-timeout") == 1
+		io := p.Chose("io-error") >= 1
+		timeout := p.Chose("io-error") == 2
+		if timeout && p.Chose("assert(io-timeout,net.Error)") == 0 {
+			return // not a kind of error that exists: a timeout is a net.Error by definition
+		}
 		want := "nil"
 		if io {
 			want = "io-error"
+		}
+		if timeout {
+			want = "io-timeout"
 		}
 		if p.Chose("ctx-ended") == 1 && (!io || timeout) {
 			want = "ctx-error"
